@@ -3,7 +3,8 @@
    pairs the implementation printed for them), and where the fault was planted.
    bit 0: Model/ContextM.v (Context.__repr__) disagrees with a printed line:column (correspondence);
    bit 1: the observation contradicts the property, judged with Spec/LineCol.v only:
-          a span is not inside its file, start after end, a printed line:column is not the Spec
+          a span is not inside its file, start after end, a non-empty span starts on white space,
+          a printed line:column is not the Spec
           position of the offset, or the first span of the first diagnostic is not the planted token. *)
 From Coq Require Import List ZArith NArith Bool.
 From Verif Require Import Spec.LineCol Model.ContextM Run.Show.
@@ -25,10 +26,20 @@ Definition span_corr (texts : list (list N)) (s : ospan) : bool :=
   | None => true     (* no text to run the model on: the property bit reports it *)
   end.
 
+(* str.strip() == "" for one character *)
+Definition blank (c : N) : bool :=
+  ((9 <=? c) && (c <=? 13) || (28 <=? c) && (c <=? 32) || (c =? 133) || (c =? 160) || (c =? 5760)
+   || (8192 <=? c) && (c <=? 8202) || (c =? 8232) || (c =? 8233) || (c =? 8239) || (c =? 8287) || (c =? 12288))%N.
+
+(* a non-empty span does not start on white space: it starts at the first character of a token *)
+Definition starts_on_token (t : list N) (s : ospan) : bool :=
+  Nat.eqb (o_start s) (o_end s) ||
+  match nth_error t (o_start s) with Some c => negb (blank c) | None => false end.
+
 Definition span_prop (texts : list (list N)) (s : ospan) : bool :=
   match nth_error texts (o_file s) with
   | Some t =>
-      Nat.leb (o_start s) (o_end s) && Nat.leb (o_end s) (length t) &&
+      Nat.leb (o_start s) (o_end s) && Nat.leb (o_end s) (length t) && starts_on_token t s &&
       pair_eqb (linecol_at t (o_start s)) (o_sl s, o_sc s) &&
       pair_eqb (linecol_at t (o_end s)) (o_el s, o_ec s) &&
       lc_leb (o_sl s, o_sc s) (o_el s, o_ec s)
